@@ -47,7 +47,7 @@ def run_native(prop, tier, seed):
     env = dict(os.environ)
     env["PYTHONPATH"] = os.path.join(VERIF, "compat") + ":" + REPO + ":" + VERIF
     env["VERIF_SEED"] = str(seed)
-    out = os.path.join(VERIF, "evidence", f".{prop}.bounded.json")
+    out = os.path.join(VERIF, "evidence", f".{prop}.{os.getpid()}.bounded.json")
     try:
         p = subprocess.run(["/venv/bin/python", drv, "bounded", prop, tier, out], env=env, capture_output=True, text=True,
                            timeout=3000 if tier == "thorough" else 900)
@@ -321,7 +321,10 @@ def check(prop, tier, update_baseline=False, only=None, procs=16):
         "wall_s": round(wall, 2), "violations": n_viol,
     }
     os.makedirs(os.path.join(VERIF, "evidence"), exist_ok=True)
-    json.dump(ev, open(os.path.join(VERIF, "evidence", prop + ".json"), "w"), indent=1, default=str)
+    # evidence describes /repo; a run against another tree (selftest/try_patch.sh sets PYVC_REPO) must not overwrite it
+    ev_name = (prop + ".json") if os.path.realpath(REPO) == "/repo" else (".scratch." + prop + ".json")
+    ev["repo"] = os.path.realpath(REPO)
+    json.dump(ev, open(os.path.join(VERIF, "evidence", ev_name), "w"), indent=1, default=str)
     for l in lines:
         print(l)
     for c in crashes:
